@@ -6,7 +6,7 @@ CONSTANT Tier
 Timeouts == {40, 150, 300, 700, 1000, 1500}
 Phases   == {50, 283, 514, 745, 950}                       \* ms within the wall-clock second
 \* "wrap": listener-wrapper mode (caddy.listeners.layer4 around a loopback TCP listener) - the third way in
-Grid == [transport : {"tcp", "udp", "wrap"}, scen : {"silent", "exact", "trickle", "flood", "slowhandler"}, T : Timeouts, phase : Phases]
+Grid == [transport : {"tcp", "udp", "wrap"}, scen : {"silent", "exact", "trickle", "flood", "slowhandler", "nested"}, T : Timeouts, phase : Phases]
 QuickGrid == { g \in Grid : g.T \in {40, 300, 700} /\ g.phase \in {283, 745, 950} }
 VARIABLE g
 Init == g \in (IF Tier = "quick" THEN QuickGrid ELSE Grid)
